@@ -11,12 +11,14 @@ RULE = ("reference-encoded files (independent Python encoder; 0-3 palettes, 0-5 
         "values (anything still accepted must satisfy the rules and round-trip); in-memory edits that break one rule each "
         "(palette index, scan-line width, width, dropped palette, layer list vs count) must be refused by Write and leave the "
         "object unchanged; distinct = distinct protocol lines")
-PROVED = ("for ALL byte strings: read b = ok a -> rules a (in N, no 32-bit wrap) and the count/total fields of b at the offsets of the "
-          "frozen format equal the actual contents; read (write a) = ok a and write is byte-stable; write a = the consumed prefix of b "
-          "when b's palette headers are canonical; the reader ignores trailing bytes; write a = Spec.encode a for every well-formed a "
-          "(frozen description); colours are blue,green,red,alpha in the file and red,green,blue,alpha fields in memory; "
-          "not (rules a) -> write a = error, for all representable a; bridging lemmas for record sizes, field offsets, bit-field masks, "
-          "the canonical palette header and the CPAL tag measured from the current headers")
+PROVED = ("for ALL byte strings b: read b = ok a -> rules a (in N, no 32-bit wrap) and a representable; b = encoding of a (with b's palette "
+          "headers) ++ rest, so every count/total field of b equals the contents; write a succeeds, read (write a) = ok a consuming all "
+          "of it, the second write is byte-identical; canonical palette headers at 8+1052i -> write a = b.take (consumed b), otherwise "
+          "b with canonical headers; the reader ignores trailing bytes and refuses every proper prefix (Local); colours are "
+          "blue,green,red,alpha bytes in the file and red,green,blue,alpha fields in memory (reader and writer); for all representable a: "
+          "not (rules a) -> write a = error; write a = Spec.encode a and read (Spec.encode a) = ok a for every well-formed a (frozen "
+          "description); bridging lemmas for record sizes, field offsets, colour field order, bit-field masks, the bytes of "
+          "CreatePaletteHeader() and the CPAL tag measured from the current headers")
 PARTIAL = ("'writing never alters the in-memory object' has no content in a functional model (write takes a value); it is checked on "
            "the real object by the dump-before = dump-after oracle only (also after a refused Write).")
 TRUSTED = ["harness/drv/prt.cpp structural dump (the library has no operator== for ArtFile)"]
